@@ -134,7 +134,7 @@ func TestVerifParallel(t *testing.T) {
 		mem := metricslite.NewMemory()
 		mm := NewMetrics(mem, "verif", time.Time{}, nil, nil)
 		cctx := NewContext(nil, mm, nil)
-		const nm, per = 3, 6000
+		const nm, per, repeat = 3, 6000, 60000
 		var wg sync.WaitGroup
 		stop := make(chan struct{})
 		go func() {
@@ -158,6 +158,13 @@ func TestVerifParallel(t *testing.T) {
 					mon.handle(&ndp.RouterAdvertisement{RouterLifetime: 30 * time.Minute, Options: []ndp.Option{
 						&ndp.PrefixInformation{PrefixLength: 64, Prefix: pfx, ValidLifetime: time.Hour, PreferredLifetime: time.Minute}}}, fmt.Sprintf("fe80::%x", m+1))
 				}
+				// ... and then what a link looks like most of the time: its router repeating one and the same prefix
+				own := netip.AddrFrom16([16]byte{0x20, 0x01, 0x0d, 0xb8, byte(m + 1), 0xff, 0xff})
+				ra := &ndp.RouterAdvertisement{RouterLifetime: 30 * time.Minute, Options: []ndp.Option{
+					&ndp.PrefixInformation{PrefixLength: 64, Prefix: own, ValidLifetime: time.Hour, PreferredLifetime: time.Minute}}}
+				for j := 0; j < repeat*rounds; j++ {
+					mon.handle(ra, fmt.Sprintf("fe80::%x", m+1))
+				}
 			}(m)
 		}
 		wg.Wait()
@@ -178,8 +185,8 @@ func TestVerifParallel(t *testing.T) {
 			}
 		}
 		for m := 0; m < nm && viol == ""; m++ {
-			if count[m] != per*rounds {
-				viol = fmt.Sprintf("monitor mon%d received %d distinct prefixes but %d are described", m, per*rounds, count[m])
+			if count[m] != per*rounds+1 {
+				viol = fmt.Sprintf("monitor mon%d received %d distinct prefixes but %d are described", m, per*rounds+1, count[m])
 			}
 		}
 		out.Emit(verifh.Case{ID: "par-monitors", Input: map[string]any{"kind": "parallel-monitors"}, Tags: []string{"parallel:monitors"}, ImplViolation: viol})
